@@ -48,6 +48,21 @@ EXTRA = [
 ]
 
 
+# scripts: several chunks (DELIMITER) and several statements per chunk, with NULLs and calls in non-final positions
+SCRIPTS = [
+    "delimiter $$\nselect f(null), null from t $$\nselect 2 $$\n",
+    "delimiter //\nselect null //\nselect g(null, 1) //\nselect 3 //\n",
+    "select f(null); select null; select 3",
+    "delimiter $$\nselect a from t where b is null $$\ndelimiter ;\nselect coalesce(null, null, 1); select null",
+    "select null;\nselect f(null);\n",
+    "delimiter |\ninsert into t (a, b) values (null, 1), (2, null) |\nupdate t set a = null |\nselect 1 |\n",
+]
+
+
+def scripts():
+    return [{"sql": s, "dialect": "common", "origin": "script"} for s in SCRIPTS]
+
+
 def statements(ctx, n_gen=400, with_corpus=True):
     out = []
     if with_corpus:
